@@ -49,8 +49,25 @@ class Result:
         self.assumptions = []
         self.tlc_runs = []
         self.scratch = tlc.scratch('verif-%s-' % prop)
+        self.specdir = os.path.join(self.scratch, 'spec')
+        shutil.copytree(os.path.join(VERIF, 'spec'), self.specdir)
 
     # -- TLC -------------------------------------------------------------------------------------
+    def model_check_py(self, module, name, pyconsts, **kw):
+        """Like model_check, but the constants are Python values (the single source of truth shared with the
+        adapter): scalars go into the cfg, everything else into a generated module EXTENDS <module>."""
+        gen = '%s_%s' % (module, name)
+        defs, consts, ov = [], {}, {}
+        for k, v in pyconsts.items():
+            if isinstance(v, (bool, int)) :
+                consts[k] = tla.to_tla(v)
+            else:
+                defs.append('K_%s == %s' % (k, tla.to_tla(v)))
+                ov[k] = 'K_' + k
+        with open(os.path.join(self.specdir, gen + '.tla'), 'w') as f:
+            f.write('---- MODULE %s ----\nEXTENDS %s\n%s\n====\n' % (gen, module, '\n'.join(defs)))
+        return self.model_check(gen, name, consts, overrides=ov, **kw)
+
     def model_check(self, module, name, constants, invariants=(), properties=(), constraints=(),
                     spec='Spec', overrides=None, dump=False, expect_violation=None, view=None,
                     action_constraints=(), timeout=1800, count=True, workers=None, deadlock=False):
@@ -61,7 +78,7 @@ class Result:
                       constraints=constraints, overrides=overrides, view=view,
                       action_constraints=action_constraints, deadlock=deadlock)
         dot = os.path.join(self.scratch, '%s_%s.dot' % (module, name)) if dump else None
-        r = tlc.run(module, cfg, self.scratch, dump=dot, timeout=timeout, workers=workers)
+        r = tlc.run(module, cfg, self.scratch, dump=dot, timeout=timeout, workers=workers, module_dir=self.specdir)
         rec = {'module': module, 'config': name, 'constants': {k: str(v) for k, v in (constants or {}).items()},
                'invariants': list(invariants), 'properties': list(properties), 'constraints': list(constraints),
                'states_generated': r.states, 'distinct_states': r.distinct, 'depth': r.depth,
